@@ -82,7 +82,7 @@ func loadKnown() ([]knownFinding, error) {
 var standingAssumptions = []string{
 	"go/ssa (x/tools v0.29.0) lowering of /repo's current working tree is faithful",
 	"the executor's semantics of SSA instructions and Go built-ins (GOARCH=amd64: int is 64 bits)",
-	"stubs/models: fmt.Sprintf/Errorf (exact verbs, otherwise opaque text), errors.Is, sync.Once, time.Now (symbolic non-decreasing clock), bytes/strings search functions (term-level models), strings.Builder, sort.Slice (insertion sort calling the real less), reflect struct-field walk, os file calls recorded not executed, log/slog no-ops, GBK conversion ASCII-only",
+	"stubs/models: fmt.Sprintf/Errorf (exact verbs, otherwise opaque text), errors.Is, sync.Once, time.Now (symbolic non-decreasing clock), bytes/strings search functions (term-level models), strings.Builder, sort.Slice (insertion sort calling the real less), reflect struct-field walk, os file calls recorded not executed, log/slog no-ops, GBK conversion: identity on symbolic ASCII text, the repository's own utils.GBK2UTF8/UTF82GBK run natively on concrete text",
 	"map iteration in insertion order (rotations where stated)",
 	"z3 4.8.12 answers are correct (sample cross-checked with z3 5.1.0 and cvc5 1.0.x)",
 	"no allocation failure, no stack exhaustion",
